@@ -122,6 +122,9 @@ pub struct Ent {
     pub comps: u8,
     /// 0 not in the target scene, 1 pre-filled with NR only, 2 pre-filled empty
     pub prefill: u8,
+    /// the entity carries Bevy's `Disabled` marker (hidden from ordinary queries; still an entity marked for replication)
+    #[serde(default)]
+    pub disabled: bool,
 }
 
 #[derive(Clone, Debug, Serialize, Deserialize)]
@@ -187,6 +190,9 @@ pub fn run(c: &Case) -> Outcome {
         }
         if e.marked {
             em.insert(Replicated);
+        }
+        if e.disabled {
+            em.insert(bevy::ecs::entity_disabling::Disabled);
         }
         let id = em.id();
         ids.push(id);
@@ -292,6 +298,9 @@ pub fn run(c: &Case) -> Outcome {
     if c.ents.iter().any(|e| e.prefill != 0) {
         out.classes.push("prefilled_scene");
     }
+    if c.ents.iter().any(|e| e.marked && e.disabled) {
+        out.classes.push("marked_entity_that_is_disabled");
+    }
     if c.ents.iter().any(|e| e.marked && e.comps & 0b0111_1111 == 0) {
         out.classes.push("marked_entity_without_components");
     }
@@ -308,7 +317,7 @@ fn rule() -> impl Strategy<Value = Rule> {
 }
 
 fn case_strategy() -> impl Strategy<Value = Case> {
-    let ent = (proptest::bool::weighted(0.75), 0u8..128, prop_oneof![3 => Just(0u8), 1 => Just(1u8), 1 => Just(2u8)]).prop_map(|(marked, comps, prefill)| Ent { marked, comps, prefill });
+    let ent = (proptest::bool::weighted(0.75), 0u8..128, prop_oneof![3 => Just(0u8), 1 => Just(1u8), 1 => Just(2u8)], proptest::bool::weighted(0.15)).prop_map(|(marked, comps, prefill, disabled)| Ent { marked, comps, prefill, disabled });
     (proptest::collection::vec(rule(), 0..7), proptest::collection::vec(ent, 0..7), proptest::bool::weighted(0.2)).prop_map(|(rules, ents, foreign)| Case { rules, ents, foreign })
 }
 
@@ -333,7 +342,7 @@ impl Prop for C18 {
     fn rule(&self) -> String {
         "case = rule set (0..6 rules: single, single with custom priority, pair bundles, triple bundle over 6 component types of which 3 are reflected+registered, \
          1 reflected but unregistered, 1 without #[reflect(Component)], 1 unreflected) x world (0..6 entities, random component subsets incl. a non-replicated \
-         component, marked or not) x target scene (empty, entries pre-filled with a non-replicated component or empty, optionally a foreign entry); oracle: expected \
+         component, marked or not, 15 % of them disabled with Bevy's `Disabled` marker) x target scene (empty, entries pre-filled with a non-replicated component or empty, optionally a foreign entry); oracle: expected \
          export computed from first principles (rule matches archetype => its components selected; keep registered ones that reflect Component): exactly one scene \
          entity per marked entity plus untouched pre-existing ones, each selected component exactly once with the current value, no marker, nothing else; the scene \
          serializes to ron and reads back with the same shape. non-trivial = some marked entity matches >= 2 rules sharing an exportable component"
